@@ -372,12 +372,18 @@ func jitter(k int) {
 }
 
 type delivery struct {
-	seq  int
-	cols []interface{}
-	g    geom.Geometry
-	tmid int
-	hasT bool
-	feat processing.Feature
+	// late*: what the feature says when the target looks at it again at the very end of its
+	// final flush (a real target buffers features and reads them when it writes the page)
+	lateCols []interface{}
+	lateG    geom.Geometry
+	lateT    int
+	lateRead bool
+	seq      int
+	cols     []interface{}
+	g        geom.Geometry
+	tmid     int
+	hasT     bool
+	feat     processing.Feature
 }
 
 type fakeTarget struct {
@@ -429,6 +435,17 @@ func (t *fakeTarget) WriteFeatures(ch <-chan processing.Feature) {
 		simrt.YieldAs(name, "tgt:flush")
 	}
 	simSleep(t.h.w.FlushSleepMs[strconv.Itoa(t.id)])
+	t.h.mu.Lock()
+	for i := range t.got {
+		d := &t.got[i]
+		d.lateCols = append([]interface{}(nil), d.feat.Columns()...)
+		d.lateG = d.feat.Geometry()
+		if ft, isT := d.feat.(processing.FeatureForTileMatrix); isT {
+			d.lateT = ft.TileMatrixID()
+		}
+		d.lateRead = true
+	}
+	t.h.mu.Unlock()
 	t.h.mu.Lock()
 	t.done = true
 	t.h.mu.Unlock()
@@ -594,15 +611,18 @@ func checkDelivery(w *workload, t *fakeTarget) *simh.Violation {
 		if !reflect.DeepEqual(e.cols, d.cols) {
 			return v("columns", "feature %d columns %#v, want %#v", e.fid, d.cols, e.cols)
 		}
-		// the feature must still say the same when asked again (no later mutation)
-		if !reflect.DeepEqual(e.cols, append([]interface{}(nil), d.feat.Columns()...)) {
-			return v("columns-mutated", "feature %d columns changed after delivery: %#v", e.fid, d.feat.Columns())
-		}
-		if !reflect.DeepEqual(d.g, d.feat.Geometry()) {
-			return v("geometry-mutated", "feature %d: geometry changed after delivery: %#v, was %#v", e.fid, d.feat.Geometry(), d.g)
-		}
-		if ft, isT := d.feat.(processing.FeatureForTileMatrix); isT && d.hasT && ft.TileMatrixID() != d.tmid {
-			return v("wrong-target", "feature %d: tile matrix id changed after delivery: %d, was %d", e.fid, ft.TileMatrixID(), d.tmid)
+		// the feature must still say the same when the target reads it again during its final
+		// flush (what happens to the objects after the target has returned is nobody's business)
+		if d.lateRead {
+			if !reflect.DeepEqual(e.cols, d.lateCols) {
+				return v("columns-mutated", "feature %d columns changed between delivery and the target's final flush: %#v", e.fid, d.lateCols)
+			}
+			if !reflect.DeepEqual(d.g, d.lateG) {
+				return v("geometry-mutated", "feature %d: geometry changed between delivery and the target's final flush: %#v, was %#v", e.fid, d.lateG, d.g)
+			}
+			if d.hasT && d.lateT != d.tmid {
+				return v("wrong-target", "feature %d: tile matrix id changed after delivery: %d, was %d", e.fid, d.lateT, d.tmid)
+			}
 		}
 		if !e.poly {
 			if !reflect.DeepEqual(e.g, d.g) {
